@@ -3,6 +3,7 @@ import EAO.Model.Readout
 import EAO.Lemmas.Blocks
 import EAO.Lemmas.Merge
 import EAO.Lemmas.Contract
+import EAO.Lemmas.Grid
 /-!
 # helper lemmas for `EAO/Properties/C13Builders.lean` (builders with a coarse asset frequency)
 
@@ -1450,5 +1451,150 @@ theorem dataSpread_of (hwf : cg.WellFormed ref.dt) {p : ContractP} {prices : Pri
   · rw [allSome_length hmaF, makeVector_length hgF f1, minorGrid_T]
 
 end contract4
+
+/-! ## Part M: what `Grid.coarsen` guarantees on a top-level grid -/
+
+theorem sel_map {α β : Type} (m : List Bool) (L : List α) (f : α → β) : sel m (L.map f) = (sel m L).map f := by
+  induction m generalizing L with
+  | nil => simp [sel_nil_left]
+  | cons b m ih =>
+    cases L with
+    | nil => simp [sel_nil_right]
+    | cons x xs => cases b <;> simp [ih]
+
+theorem eq_map_range {α : Type} (xs : List α) (d : α) : xs = (List.range xs.length).map (xs.getD · d) := by
+  apply List.ext_getElem
+  · simp
+  · intro i h1 h2
+    simp [List.getD_eq_getElem?_getD, List.getElem?_eq_getElem h1]
+
+/-- a selection from a list is the selection of the positions, read in the list -/
+theorem sel_of_range {α : Type} (m : List Bool) (xs : List α) (d : α) :
+    sel m xs = (sel m (List.range xs.length)).map (xs.getD · d) := by
+  conv => lhs; rw [eq_map_range xs d]
+  exact sel_map m _ _
+
+theorem nodup_of_flatten {α : Type} (cells : List α) (minor : α → List Nat) (I : α → Nat)
+    (hI : ∀ c, c ∈ cells → I c ∈ minor c) (hp : (cells.map minor).flatten.Pairwise (· < ·)) : (cells.map I).Nodup := by
+  induction cells with
+  | nil => simp
+  | cons c rest ih =>
+    rw [List.map_cons, List.flatten_cons, List.pairwise_append] at hp
+    rw [List.map_cons, List.nodup_cons]
+    refine ⟨?_, ih (fun c' hc' => hI c' (List.mem_cons_of_mem _ hc')) hp.2.1⟩
+    intro hmem
+    obtain ⟨c', hc', he⟩ := List.mem_map.mp hmem
+    have h1 := hI c List.mem_cons_self
+    have h2 : I c' ∈ (rest.map minor).flatten :=
+      List.mem_flatten.mpr ⟨minor c', List.mem_map.mpr ⟨c', hc', rfl⟩, hI c' (List.mem_cons_of_mem _ hc')⟩
+    have := hp.2.2 _ h1 _ h2
+    omega
+
+theorem filterMap_length_of_isSome {α β : Type} (L : List α) (f : α → Option β) (h : ∀ a, a ∈ L → (f a).isSome = true) :
+    (L.filterMap f).length = L.length := by
+  induction L with
+  | nil => rfl
+  | cons a L ih =>
+    have ha := h a List.mem_cons_self
+    cases hf : f a with
+    | none => rw [hf] at ha; cases ha
+    | some b =>
+      rw [List.filterMap_cons, hf]
+      simp [ih (fun a' ha' => h a' (List.mem_cons_of_mem _ ha'))]
+
+/-- **the hypotheses on the coarse grid hold for what `Grid.coarsen` makes of a top-level grid** -/
+theorem coarsen_wellFormed' (ref : Grid) (cuts : List Int) (cg : CoarseGrid) (htl : ref.TopLevel)
+    (h : ref.coarsen cuts = .ok cg) (hc : cuts.Pairwise (· ≤ ·)) : cg.WellFormed ref.dt := by
+  have hpts : ref.pts.Pairwise (· ≤ ·) := htl.pts.imp (fun h => by omega)
+  unfold Grid.coarsen at h
+  cases hcells : coarseCells ref cuts with
+  | error e => rw [hcells] at h; cases h
+  | ok cells =>
+    rw [hcells] at h
+    cases h
+    obtain ⟨hminor, hdt, hall⟩ := coarseCells_spec ref cuts cells hcells
+    -- every cell, seen through the positions of the reference grid
+    have hcell : ∀ c, c ∈ cells → c.minor ≠ [] ∧ c.I ∈ c.minor ∧ (∀ t, t ∈ c.minor → t < ref.pts.length) ∧
+        c.dt = (c.minor.map (ref.dt.getD · 0)).sum ∧ c.df.isSome = true := by
+      intro c hcm
+      obtain ⟨hne, ab, _, _, hcc⟩ := hall c hcm
+      obtain ⟨hmin, _, hcdt, _, _, _, hdf⟩ := coarseCell_ok ref ab.1 ab.2 c hcc
+      have hfirst := (coarseCell_first ref ab.1 ab.2 c hcc htl.idx htl.DtLen).1
+      have hlt : ∀ t, t ∈ c.minor → t < ref.pts.length := by
+        intro t ht
+        rw [hmin, htl.idx] at ht
+        exact List.mem_range.mp ((sel_sublist _ _).subset ht)
+      refine ⟨hne, ?_, hlt, ?_, ?_⟩
+      · cases hm : c.minor with
+        | nil => exact absurd hm hne
+        | cons i is => rw [hm] at hfirst; simp at hfirst; rw [← hfirst]; simp
+      · rw [hcdt, sel_of_range _ ref.dt 0, htl.dtLen, ← htl.idx, ← hmin]
+      · unfold dfAt at hdf
+        split at hdf
+        · rename_i hemp
+          have : ref.df.length = 0 := by simpa using hemp
+          have hT : ref.pts.length = 0 := by rw [← htl.dfLen]; exact this
+          have hI := hlt c.I (by
+            cases hm : c.minor with
+            | nil => exact absurd hm hne
+            | cons i is => rw [hm] at hfirst; simp at hfirst; rw [← hfirst]; simp)
+          omega
+        · cases hd : ref.df[c.I]? with
+          | none => rw [hd] at hdf; simp at hdf
+          | some v => rw [hd] at hdf; simp at hdf; rw [← hdf]; rfl
+    have hflat : (cells.map (·.minor)).flatten.Pairwise (· < ·) := by
+      cases hcuts : cuts with
+      | nil => rw [hcuts] at hcells; simp [coarseCells] at hcells; subst hcells; simp
+      | cons c0 rest =>
+        have hlast : ∃ cn, cuts.getLast? = some cn := by
+          cases hg : cuts.getLast? with
+          | some cn => exact ⟨cn, rfl⟩
+          | none => rw [List.getLast?_eq_none_iff] at hg; rw [hg] at hcuts; cases hcuts
+        obtain ⟨cn, hn⟩ := hlast
+        have hcov := (coarseCells_cover ref hpts cuts cells hcells hc c0 cn (by rw [hcuts]; rfl) hn).1
+        rw [hcov, htl.idx]
+        exact List.pairwise_lt_range.sublist (sel_sublist _ _)
+    refine
+      { ok := ?_, minorLen := ?_, nodup := ?_, dtSum := ?_, dtPos := ?_, nonempty := ?_ }
+    · refine ⟨?_, ?_, ?_⟩
+      · show (cells.map (·.I)).length = (cells.map (·.pt)).length
+        simp
+      · show (cells.map (·.dt)).length = (cells.map (·.pt)).length
+        simp
+      · show (cells.filterMap (·.df)).length = (cells.map (·.pt)).length
+        rw [filterMap_length_of_isSome _ _ (fun c hcm => (hcell c hcm).2.2.2.2)]; simp
+    · show (cells.map (·.minor)).length = (cells.map (·.pt)).length
+      simp
+    · show (cells.map (·.I)).Nodup
+      exact nodup_of_flatten cells (·.minor) (·.I) (fun c hcm => (hcell c hcm).2.1) hflat
+    · intro i hi
+      have hi' : i < cells.length := by simpa using hi
+      show (cells.map (·.dt)).getD i 0 = (((cells.map (·.minor)).getD i []).map (ref.dt.getD · 0)).sum
+      rw [List.getD_eq_getElem?_getD, List.getD_eq_getElem?_getD, List.getElem?_map, List.getElem?_map,
+        List.getElem?_eq_getElem hi']
+      simp only [Option.map_some, Option.getD_some]
+      exact (hcell _ (List.getElem_mem hi')).2.2.2.1
+    · intro cell hcm t ht
+      obtain ⟨c, hc', rfl⟩ := List.mem_map.mp hcm
+      have hlt := (hcell c hc').2.2.1 t ht
+      have hlt' : t < ref.dt.length := by rw [htl.dtLen]; exact hlt
+      rw [List.getD_eq_getElem?_getD, List.getElem?_eq_getElem hlt', Option.getD_some]
+      exact htl.dtPos _ (List.getElem_mem hlt')
+    · intro cell hcm
+      obtain ⟨c, hc', rfl⟩ := List.mem_map.mp hcm
+      exact (hcell c hc').1
+
+/-- for a window of whole coarse steps (first cut = start, last cut = end: `coarse_partition_whole` of C19) the fine
+    steps of the coarse grid are the asset's fine restricted grid -/
+theorem minorGrid_eq_restrict' (ref : Grid) (cg : CoarseGrid) (s e : Int) (htl : ref.TopLevel)
+    (hflat : cg.minor.flatten = (ref.restrict s e).idx) : minorGrid ref cg = ref.restrict s e := by
+  have hidx : (ref.restrict s e).idx = sel (ref.mask s e) (List.range ref.pts.length) := by
+    show sel _ ref.idx = _
+    rw [htl.idx]
+  unfold minorGrid
+  rw [hflat, hidx]
+  show _ = ({ pts := sel _ ref.pts, idx := sel _ ref.idx, dt := sel _ ref.dt, Dt := sel _ ref.Dt, df := sel _ ref.df } : Grid)
+  rw [sel_of_range _ ref.pts 0, sel_of_range _ ref.dt 0, sel_of_range _ ref.Dt 0, sel_of_range _ ref.df 0,
+    htl.dtLen, htl.DtLen, htl.dfLen, htl.idx]
 
 end EAO.CoarseBuild
